@@ -66,6 +66,9 @@ type Prog struct {
 // GenFeat limits what the generator may emit.
 type GenFeat struct {
 	Commit   bool
+	// ChainCommit: up to five commitments, later ones may commit to the outputs of earlier ones
+	// (Commits entries < 0: -(k+1) is the output of commitment k)
+	ChainCommit bool
 	Lookup   bool
 	Range    bool
 	Hint     bool
@@ -242,10 +245,21 @@ func GenProg(tape *simrt.Tape, q *big.Int, feat GenFeat) (*Prog, []*big.Int) {
 	}
 	if feat.Commit {
 		nc := ch(3)
+		if feat.ChainCommit {
+			nc = ch(6)
+		}
 		for i := 0; i < nc; i++ {
 			k := 1 + ch(3)
 			var c []int
+			chained := feat.ChainCommit && i >= 1 && ch(2) == 0
 			for j := 0; j < k; j++ {
+				if chained {
+					c = append(c, -(1 + ch(i)))
+				} else {
+					c = append(c, ch(len(vals)))
+				}
+			}
+			if chained && ch(2) == 0 {
 				c = append(c, ch(len(vals)))
 			}
 			p.Commits = append(p.Commits, c)
@@ -530,9 +544,19 @@ func (c *GC) Define(api frontend.API) error {
 		if !ok {
 			return fmt.Errorf("builder does not implement Committer")
 		}
-		for _, cs := range p.Commits {
+		outs := make([]frontend.Variable, len(p.Commits))
+		for ci, cs := range p.Commits {
 			var args []frontend.Variable
+			seen := map[int]bool{}
 			for _, i := range cs {
+				if i < 0 {
+					// the output of an earlier commitment (each at most once)
+					if k := -i - 1; k < ci && outs[k] != nil && !seen[i] {
+						seen[i] = true
+						args = append(args, outs[k])
+					}
+					continue
+				}
 				// constants cannot be committed to
 				if _, isConst := api.Compiler().ConstantValue(v[i]); !isConst {
 					args = append(args, v[i])
@@ -545,6 +569,7 @@ func (c *GC) Define(api frontend.API) error {
 			if err != nil {
 				return err
 			}
+			outs[ci] = x
 			// use the commitment so that it is constrained: x * x == x*x via a product
 			api.AssertIsEqual(api.Mul(x, args[0]), api.Mul(args[0], x))
 		}
